@@ -232,6 +232,7 @@ func (d *DirectTransmission) EnqueueEvent(ev *types.Event) {
 	}
 	batch.events = append(batch.events, ev)
 	shouldDispatch := len(batch.events) >= d.maxBatchSize
+	verifEmit(d, "enqueue", "ev", ev, "n", len(batch.events), "start", batch.startTime, "dispatch", shouldDispatch)
 	if shouldDispatch {
 		events := batch.events
 		batch.events = nil
@@ -298,6 +299,7 @@ func (d *DirectTransmission) Stop() error {
 	// further enqueues are possible.
 	eventBatches := d.eventBatches
 	d.eventBatches = nil
+	verifEmit(d, "stop_flush", "batches", eventBatches)
 	for _, batch := range eventBatches {
 		if len(batch.events) > 0 {
 			d.dispatchPool.Go(func() {
@@ -313,6 +315,7 @@ func (d *DirectTransmission) Stop() error {
 	d.dispatchPool = nil
 	d.stop = nil
 
+	verifEmit(d, "stop_end")
 	return nil
 }
 
@@ -361,6 +364,7 @@ func (d *DirectTransmission) handleBatchFailure(batch []*types.Event, errorMsg s
 		d.Metrics.Histogram(d.metricKeys.histogramQueueTime, float64(now-ev.EnqueuedUnixMicro))
 		d.Metrics.Down(d.metricKeys.updownQueuedItems)
 	}
+	verifEmit(d, "batch_fail", "events", batch)
 }
 
 // handleEventError logs an error and updates metrics for a single event
@@ -372,6 +376,7 @@ func (d *DirectTransmission) handleEventError(ev *types.Event, statusCode int, q
 	d.Metrics.Increment(d.metricKeys.counterResponseErrors)
 	d.Metrics.Down(d.metricKeys.updownQueuedItems)
 	d.Metrics.Histogram(d.metricKeys.histogramQueueTime, float64(queueTime))
+	verifEmit(d, "event_err", "ev", ev, "status", statusCode)
 }
 
 // Stores *[]byte instead of []byte to avoid having the slice headers themselves
@@ -393,6 +398,7 @@ var readerPool = sync.Pool{
 // Sends one message or, if the batch is larger than what is allowed, several.
 func (d *DirectTransmission) sendBatch(wholeBatch []*types.Event) {
 	subBatch := make([]*types.Event, 0, len(wholeBatch))
+	verifEmit(d, "send_begin", "events", wholeBatch)
 
 	for len(wholeBatch) > 0 {
 		// All events in batch should have same destination
@@ -437,6 +443,7 @@ func (d *DirectTransmission) sendBatch(wholeBatch []*types.Event) {
 			subBatch = append(subBatch, wholeBatch[i])
 		}
 		// Any leftover events will be sent in the next iteration.
+		verifEmit(d, "pack", "whole", wholeBatch, "sub", subBatch, "next", i, "bytes", len(packed))
 		wholeBatch = wholeBatch[i:]
 
 		if len(subBatch) == 0 {
@@ -476,6 +483,7 @@ func (d *DirectTransmission) sendBatch(wholeBatch []*types.Event) {
 		for try := 0; try < 2; try++ {
 			if try > 0 {
 				d.Metrics.Increment(d.metricKeys.counterSendRetries)
+				verifEmit(d, "retry", "events", subBatch, "try", try)
 			}
 
 			if d.enableCompression {
@@ -516,6 +524,7 @@ func (d *DirectTransmission) sendBatch(wholeBatch []*types.Event) {
 				}
 				if sleepDur > 0 && sleepDur < 60*time.Second {
 					resp.Body.Close()
+					verifEmit(d, "sleep", "events", subBatch, "dur", sleepDur)
 					d.Clock.Sleep(sleepDur)
 					continue // retry in the loop
 				}
@@ -591,6 +600,7 @@ func (d *DirectTransmission) sendBatch(wholeBatch []*types.Event) {
 					d.Metrics.Increment(d.metricKeys.counterResponse20x)
 					d.Metrics.Down(d.metricKeys.updownQueuedItems)
 					d.Metrics.Histogram(d.metricKeys.histogramQueueTime, float64(queueTime))
+					verifEmit(d, "event_ok", "ev", ev)
 				}
 			}
 		} else {
@@ -624,6 +634,7 @@ func (d *DirectTransmission) sendBatch(wholeBatch []*types.Event) {
 				d.handleEventError(ev, resp.StatusCode, queueTime, "", bodyBytes, "")
 			}
 		}
+		verifEmit(d, "sub_done", "events", subBatch)
 	}
 }
 
@@ -643,6 +654,7 @@ func (d *DirectTransmission) dispatchStaleBatches() {
 		select {
 		case <-batchTicker.Chan():
 			dispatchStart := d.Clock.Now()
+			verifEmit(d, "stale_begin", "now", dispatchStart)
 
 			// Get a snapshot of all keys
 			keys = keys[:0]
@@ -667,15 +679,18 @@ func (d *DirectTransmission) dispatchStaleBatches() {
 				if batchCount > 0 && dispatchStart.Sub(batch.startTime) >= d.batchTimeout {
 					events := batch.events
 					batch.events = nil
+					verifEmit(d, "stale_cut", "key", key, "events", events, "start", batch.startTime)
 					batch.mutex.Unlock()
 
 					d.dispatchPool.Go(func() {
 						d.sendBatch(events)
 					})
 				} else {
+					verifEmit(d, "stale_skip", "key", key, "n", batchCount, "start", batch.startTime)
 					batch.mutex.Unlock()
 				}
 			}
+			verifEmit(d, "stale_end")
 			d.Metrics.Histogram(d.metricKeys.staleDispatchTime, float64(d.Clock.Now().UnixMicro()-dispatchStart.UnixMicro()))
 
 		case <-metricsTicker.Chan():
